@@ -3,4 +3,4 @@ From Coq Require Import ExtrOcamlBasic.
 From Coq Require Extraction.
 From LJT Require Import model.Dest model.WorstCase model.XformIcc proofs.EncoderBounds.
 Extraction Language OCaml.
-Extraction "x_c13.ml" run cfg_tj cfg_tj_old cfg_ijg tj3JPEGBufSize icc_bytes block_coefs scan_size size_term icc_written chunk_max icc_bytes_written marker_budget.
+Extraction "x_c13.ml" run cfg_tj cfg_tj_old cfg_ijg tj3JPEGBufSize icc_bytes block_coefs scan_size size_term icc_written chunk_max icc_bytes_written marker_budget size_term_bytes.
